@@ -1738,3 +1738,106 @@ def _positional_to_keyword(texts):
 
 K("zzk-positional-to-keyword-arguments", _positional_to_keyword,
   note="package functions called by keyword; _bounds_checker min positional")
+
+
+# ===================================================== round-5 rules =======
+B("r56-hours-block-gone", ["C01"], ["R56"],
+  ("data", "        if duration._hours:\n"
+           "            new._hour_of_day += duration._hours\n"
+           "            new._tick_over()\n", ""), canary=True)
+B("r56-days-only-for-calendar", ["C01"], ["R56"],
+  ("data", "            else:\n"
+           "                new._day_of_week += duration._days\n",
+   "            elif new.get_is_week_date() and new._day_of_week is None:\n"
+   "                new._day_of_week = duration._days\n"))
+B("r57-inclusive-upper-bound", ["C03"], ["R57"],
+  ("data", "    elif this_start <= cal_date < next_start:",
+   "    elif this_start <= cal_date <= next_start:"), canary=True)
+B("r57-exclusive-lower-bound", ["C03"], ["R57"],
+  ("data", "    if prev_start <= cal_date < this_start:",
+   "    if prev_start < cal_date < this_start:"))
+B("r58-refuse-decimal-comma", ["C07"], ["R58"],
+  ("parsers", "        if bad_types is None:\n            bad_types = []\n"
+              "        for format_key, type_regex_map in "
+              "self._time_regex_map.items():",
+   "        if bad_types is None:\n            bad_types = []\n"
+   "        if \",\" in time_string[2:]:\n"
+   "            raise ISO8601SyntaxError(\"time\", time_string)\n"
+   "        for format_key, type_regex_map in "
+   "self._time_regex_map.items():"), canary=True)
+K("r58-refuse-colon-when-basic",
+  ("parsers", "        if bad_types is None:\n            bad_types = []\n"
+              "        for format_key, type_regex_map in "
+              "self._time_regex_map.items():",
+   "        if bad_types is None:\n            bad_types = []\n"
+   "        if self.allow_only_basic and \":\" in time_string:\n"
+   "            raise ISO8601SyntaxError(\"time\", time_string)\n"
+   "        for format_key, type_regex_map in "
+   "self._time_regex_map.items():"))
+B("r59-literal-format-keys", ["C09"], ["R59"],
+  ("parsers", "        for format_key, regex_list in "
+              "self._time_zone_regex_map.items():\n"
+              "            if format_key in bad_formats:\n"
+              "                continue\n",
+   "        for format_key in (\"basic\", \"extended\"):\n"
+   "            if format_key in bad_formats:\n"
+   "                continue\n"
+   "            regex_list = self._time_zone_regex_map[format_key]\n"),
+  canary=True)
+K("r59-keys-of-the-map-itself",
+  ("parsers", "        for format_key, regex_list in "
+              "self._time_zone_regex_map.items():\n"
+              "            if format_key in bad_formats:\n"
+              "                continue\n",
+   "        for format_key in list(self._time_zone_regex_map):\n"
+   "            if format_key in bad_formats:\n"
+   "                continue\n"
+   "            regex_list = self._time_zone_regex_map[format_key]\n"))
+B("r60-whole-plus-fraction", ["C10"], ["R60"],
+  ("parsers", "                    value = float(value)\n",
+   "                    whole, _, frac = value.partition(\".\")\n"
+   "                    value = float(whole) + float(\"0.\" + (frac or \"0\"))\n"),
+  canary=True)
+B("r61-min-point-not-checked", ["C13"], ["R61"],
+  ("data", "        if self._min_point is not None and timepoint < "
+           "self._min_point:\n            return False\n", ""), canary=True)
+K("r61-effective-bounds-max-min",
+  ("data", "        if self._start_point is not None and timepoint < "
+           "self._start_point:\n            return False\n"
+           "        if self._min_point is not None and timepoint < "
+           "self._min_point:\n            return False\n",
+   "        lower = self._start_point\n"
+   "        if self._min_point is not None and (\n"
+   "                lower is None or self._min_point > lower):\n"
+   "            lower = self._min_point\n"
+   "        if lower is not None and timepoint < lower:\n"
+   "            return False\n"))
+B("r62-count-not-scaled", ["C15"], ["R62"],
+  ("data", "            days += num_corrections * diff_days_leap",
+   "            days += num_corrections"), canary=True)
+B("r29-splitter-from-table", ["C17"], ["R29"],
+  ("parser_spec", "REC_SPLIT_STRFTIME_DIRECTIVE = re.compile(r\"(%\\w)\")",
+   "REC_SPLIT_STRFTIME_DIRECTIVE = re.compile(r\"(%[dFHjmMsSTXYyz])\")"))
+K("r29-splitter-letters-only",
+  ("parser_spec", "REC_SPLIT_STRFTIME_DIRECTIVE = re.compile(r\"(%\\w)\")",
+   "REC_SPLIT_STRFTIME_DIRECTIVE = re.compile(r\"(%[A-Za-z0-9_])\")"))
+B("r16-empty-shortcut-in-eq", ["C11"], ["R16"],
+  ("data", "        if isinstance(other, Duration):\n"
+           "            if self.is_exact():\n"
+           "                if other.is_exact():\n",
+   "        if isinstance(other, Duration):\n"
+   "            if not other:\n"
+   "                return not self\n"
+   "            if self.is_exact():\n"
+   "                if other.is_exact():\n"))
+B("r36-truncated-props-by-truth", ["C07"], ["R36"],
+  ("data", "            if value is not None:\n"
+           "                props.update({attr: value})",
+   "            if value:\n"
+   "                props.update({attr: value})"))
+B("r11-leap-flag-overridden", ["C12"], ["R11"],
+  ("data", "    is_leap_year = get_is_leap_year(year)\n    return _iter_months_days(",
+   "    is_leap_year = get_is_leap_year(year)\n"
+   "    if month_of_year is not None and month_of_year > 2:\n"
+   "        is_leap_year = False\n"
+   "    return _iter_months_days("))
